@@ -54,3 +54,21 @@ Theorem C07_loaded_composeinfo_is_valid :
   children_valid None (ci_variants x).
 Proof. exact load_ci_valid. Qed.
 Print Assumptions C07_loaded_composeinfo_is_valid.
+
+(* treeinfo: everything a successful load returns has passed the validators the writer runs - release, base product (when
+   layered), tree, EVERY variant of the tree in the context of its parent, the variants container, checksum paths, image paths
+   and platforms, stage2, media (formats 0.3 and later; pre-productmd files go through Model/TreeInfo00.v) *)
+From PM Require Import Base.Ini Model.TreeInfo Proofs.TreeInfoLoadValid.
+Theorem C07_loaded_treeinfo_is_valid :
+  forall t x, deser_ti t = Ok x ->
+  tvalidate (F"treeinfo.Release") (ti_release x) = Ok tt /\
+  (truthy (getf (ti_release x) (F"is_layered")) = true -> tvalidate (F"treeinfo.BaseProduct") (ti_base_product x) = Ok tt) /\
+  tvalidate (F"treeinfo.Tree") (ti_tree x) = Ok tt /\
+  ti_variants_valid (ti_variants x) /\
+  tvalidate (F"treeinfo.Variants") [(F"_children", PList (map (tv_child_entry true) (sort_keys (ti_variants x))))] = Ok tt /\
+  tvalidate (F"treeinfo.Checksums") [(F"_checksum_paths", PList (map (fun c => PStr (fst c)) (ti_checksums x)))] = Ok tt /\
+  tvalidate (F"treeinfo.Images") (images_ctx x) = Ok tt /\
+  tvalidate (F"treeinfo.Stage2") (ti_stage2 x) = Ok tt /\
+  tvalidate (F"treeinfo.Media") (ti_media x) = Ok tt.
+Proof. exact load_ti_valid. Qed.
+Print Assumptions C07_loaded_treeinfo_is_valid.
